@@ -26,6 +26,7 @@ func main() {
 	maxPaths := flag.Int("maxpaths", 200000, "path bound")
 	maxSteps := flag.Int64("maxsteps", 3000000, "SSA step bound per path")
 	budget := flag.Int("budget", 0, "wall-clock budget per entry in seconds (0 = none)")
+	tier := flag.Int("tier", 0, "0 quick / 1 thorough (read by harnesses through vTier)")
 	out := flag.String("out", "", "result JSON file")
 	dump := flag.String("dump", "", "dump SSA of function and exit")
 	flag.Parse()
@@ -91,8 +92,8 @@ func main() {
 		}
 		ex := &Explorer{prog: prog, mainPkg: mainPkg, entry: e, entryFn: fn, errorStringPtr: errStrPtr, timeType: timeType,
 			maxSteps: *maxSteps, maxDepth: 200, maxThreads: 8, maxAlloc: 1 << 16, maxConcretize: 300, defaultUnwind: *unwind,
-			maxPaths: *maxPaths, solverKind: *solver, solverTimeout: *timeout,
-			initPkgs: map[string]bool{"io": true, "bufio": true, "bytes": true, "errors": true, "encoding/binary": true, mlPkg: true, "net": false}}
+			tier: *tier, maxPaths: *maxPaths, solverKind: *solver, solverTimeout: *timeout,
+			initPkgs: map[string]bool{"io": true, "bufio": true, "bytes": true, "errors": true, "encoding/binary": true, mlPkg: true, "github.com/google/btree": true, "hash/crc32": false, "net": false}}
 		if *budget > 0 {
 			ex.deadline = time.Now().Add(time.Duration(*budget) * time.Second)
 		}
